@@ -14,7 +14,11 @@ declare -A MAP=(
  [A_conn_1]="C06 C04 C09 C12 C14 C05" [A_conn_2]="C11 C04 C09 C12" [A_conn_3]="C05 C11 C02 C14 C09" [A_conn_4]="C11 C09 C12 C14"
  [A_codec_1]="C02 C05 C01 C14" [A_codec_2]="C10 C01 C03" [A_codec_3]="C18 C02 C04" [A_codec_4]="C18"
  [A_journal_1]="C13 C08 C09" [A_journal_2]="C13 C08 C09 C06" [A_journal_3]="C13 C08 C05 C06" [A_journal_4]="C04 C11 C09"
- [A_proto_1]="C16 C17" [A_proto_2]="C17 C20" [A_proto_3]="C15" [A_proto_4]="C20")
+ [A_proto_1]="C16 C17" [A_proto_2]="C17 C20" [A_proto_3]="C15" [A_proto_4]="C20"
+ # second batch, bolder in form (loop forms, walrus, generators, table dispatch, merged conditions)
+ [A_conn2_1]="C06 C04 C09 C12 C14 C05" [A_conn2_2]="C12" [A_conn2_3]="C04 C09 C11 C12 C14" [A_conn2_4]="C04 C09 C11"
+ [A_codec2_1]="C02 C05 C01 C14" [A_codec2_2]="C10 C03 C01" [A_codec2_3]="C18" [A_codec2_4]="C18"
+ [A_proto2_1]="C19 C15" [A_proto2_2]="C19 C15" [A_proto2_3]="C16 C17" [A_proto2_4]="C13 C08 C09")
 rc=0
 for d in "${!MAP[@]}"; do
   case "$d" in *"${1:-}"*) ;; *) continue;; esac
